@@ -457,6 +457,15 @@ def _base_name(x: ast.AST) -> Optional[str]:
     return None
 
 
+def is_call_name(x: ast.AST, name: str) -> bool:
+    return isinstance(x, ast.Call) and isinstance(x.func, ast.Name) and x.func.id == name
+
+
+def names_bound_of(n) -> List[str]:
+    from fsa.flow import names_bound
+    return names_bound(n)
+
+
 def comp_element(elt: ast.AST, generators) -> ast.AST:
     """The element expression of a comprehension with loop targets that merely name an element of the iterated
     container replaced by a subscript of that container: `v - p[k] for k, v in c.items()` reads `c[k] - p[k]`;
@@ -501,6 +510,21 @@ def check_convergence(R, sh: SolverShape) -> None:
                 f'loop head is stale, so a later comparison spans several passes', where=sh.where(sh.n_eval))
     except AnchorMissing:
         pass
+    # the reader resolves each series through the object at the time of reading: arrays looked up once and kept in a
+    # local go stale when a series is rebound (assigning a list to a variable installs a new array)
+    for sub in ast.walk(sh.fi.node):
+        if isinstance(sub, ast.FunctionDef) and sub is not sh.fi.node and any(is_call_name(x, sub.name) for n_ in sh.cfg.nodes if sh.in_loop(n_) and n_.ast is not None
+                                                                                  for x in ast.walk(n_.ast)):
+            own = {x.id for x in ast.walk(sub) if isinstance(x, ast.Name) and isinstance(x.ctx, ast.Store)} | {a.arg for a in sub.args.args}
+            for x in ast.walk(sub):
+                if isinstance(x, ast.Name) and isinstance(x.ctx, ast.Load) and x.id not in own and x.id in sh.lf.locals and x.id not in sh.fi.params():
+                    defs_ = [n_ for n_ in sh.cfg.nodes if n_.kind == 'stmt' and isinstance(n_.ast, (ast.Assign, ast.AnnAssign)) and x.id in names_bound_of(n_)]
+                    cached = [n_ for n_ in defs_ if not sh.in_loop(n_) and any(isinstance(y, ast.Subscript) or isinstance(y, (ast.ListComp, ast.DictComp)) for y in ast.walk(n_.ast.value))
+                              and 'self' in {z.id for z in ast.walk(n_.ast.value) if isinstance(z, ast.Name)}]
+                    if cached:
+                        R.violation(sh.q, key + f':cached-arrays:{x.id}', f'`{sub.name}()` reads the check values through `{x.id}`, a local filled once before the pass loop '
+                                    f'(`{cached[0].label()[:70]}`): the arrays are not looked up again, so a series rebound during the solve (e.g. `self.Y = [...]` in a hook) is '
+                                    f'never seen and the test compares stale values', where=sh.where(cached[0]))
     R.check(quant == 'all', sh.q, key + ':quant', 'convergence requires every check variable (universal)',
             f'convergence test is existential: `{text(conv.ast)}`', where=sh.where(conv))
     R.check(op == '<', sh.q, key + ':strict', 'movement is compared strictly (< tol)',
